@@ -35,10 +35,72 @@ func metaJSON(status int, header bool) string {
 
 // Tricky are strings whose Go quoting differs from their JSON quoting, or
 // that are not valid UTF-8; handlers echo them in messages and results.
-var Tricky = []string{"", "\a", "\x1b[0m", "\x00", "é\u2028", "\xff\xfe", "\U000e0001", "quote\"back\\slash", "\v\f", "\x7f"}
+// The last three are long (seeded change C07t corrupts published payloads
+// beyond 1024 bytes): every byte of them needs an escape, so that a payload
+// damaged anywhere inside them is no longer the JSON of the value.
+var Tricky = []string{"", "\a", "\x1b[0m", "\x00", "é\u2028", "\xff\xfe", "\U000e0001", "quote\"back\\slash", "\v\f", "\x7f",
+	strings.Repeat(`"`, 1100), strings.Repeat("\\\"", 2100), strings.Repeat("\"\n", 33000)}
+
+// PadFor returns a long string for some ids and "" for the others; event and
+// query response values carry it as an extra property, so that messages of
+// every kind also come in sizes of a few and of many kilobytes.
+func PadFor(id int) string {
+	if id%5 != 2 {
+		return ""
+	}
+	return Tricky[len(Tricky)-1-(id/5)%3]
+}
 
 // TrickyFor returns the tricky string used by request id.
 func TrickyFor(id int) string { return Tricky[id%len(Tricky)] }
+
+// AnyMsg stands for an error message the library words as it likes: the
+// properties fix the error code of a panic that is not a *res.Error, of a
+// missing reply, of a value that cannot be encoded and of ParseParams /
+// ParseToken failures, not the text. ResponseEqual accepts any string there.
+const AnyMsg = "\x00any-message\x00"
+
+// StdMsg holds the messages of the library's predefined error values, which
+// handlers send through NotFound(), MethodNotFound() and so on. The scenarios
+// fill it from the exported res.Err* variables, so a reworded predefined
+// error does not look like a wrong response.
+var StdMsg = map[string]string{
+	"system.notFound":       "Not found",
+	"system.methodNotFound": "Method not found",
+	"system.accessDenied":   "Access denied",
+	"system.invalidParams":  "Invalid parameters",
+	"system.invalidQuery":   "Invalid query",
+}
+
+// ResponseEqual compares a response with the expected JSON; where the
+// expectation carries AnyMsg as error message, any string message is accepted.
+func ResponseEqual(got, want string) bool {
+	if !strings.Contains(want, jsonStringInner(AnyMsg)) {
+		return JSONEqual(got, want)
+	}
+	var g map[string]json.RawMessage
+	if json.Unmarshal([]byte(got), &g) != nil {
+		return false
+	}
+	var e map[string]json.RawMessage
+	if json.Unmarshal(g["error"], &e) != nil {
+		return false
+	}
+	var msg string
+	if m, ok := e["message"]; !ok || json.Unmarshal(m, &msg) != nil {
+		return false
+	}
+	e["message"] = json.RawMessage(jsonString(AnyMsg))
+	eb, _ := json.Marshal(e)
+	g["error"] = eb
+	gb, _ := json.Marshal(g)
+	return JSONEqual(string(gb), want)
+}
+
+func jsonStringInner(s string) string {
+	q := jsonString(s)
+	return q[1 : len(q)-1]
+}
 
 func jsonString(s string) string {
 	b, _ := json.Marshal(s)
@@ -77,7 +139,7 @@ func ExpandParse(script []string, params, token string) []string {
 			if len(params) > 0 {
 				var v ParamsT
 				if err := json.Unmarshal([]byte(params), &v); err != nil {
-					a = "p:reserrmsg:system.invalidParams|" + err.Error()
+					a = "p:reserrmsg:system.invalidParams|" + AnyMsg
 				}
 			}
 		case "pt":
@@ -85,7 +147,7 @@ func ExpandParse(script []string, params, token string) []string {
 			if len(token) > 0 {
 				var v TokenT
 				if err := json.Unmarshal([]byte(token), &v); err != nil {
-					a = "p:reserrmsg:system.internalError|Internal error: " + err.Error()
+					a = "p:reserrmsg:system.internalError|" + AnyMsg
 				}
 			}
 		}
@@ -135,8 +197,8 @@ func PredictResponse(handler string, script []string, id int, isHTTP bool, rname
 			return
 		}
 		ex.Code = "system.internalError"
-		ex.Message = "Internal error: " + msg
-		ex.Payload = errJSON(ex.Code, ex.Message, "", meta())
+		_ = msg // the wording of the message is the library's own
+		ex.Payload = errJSON(ex.Code, AnyMsg, "", meta())
 	}
 	for _, a := range script {
 		arg := ""
@@ -247,7 +309,7 @@ func PredictResponse(handler string, script []string, id int, isHTTP bool, rname
 				ex.Payload = `{"result":{"collection":[` + sid + `],"query":"q=2"}}`
 			case "notfound":
 				ex.Code = "system.notFound"
-				ex.Payload = errJSON(ex.Code, "Not found", "", m)
+				ex.Payload = errJSON(ex.Code, StdMsg[ex.Code], "", m)
 			case "err":
 				ex.Code = "test.err"
 				ex.Payload = errJSON(ex.Code, "Err "+sid+TrickyFor(id), `{"x":1}`, m)
@@ -256,12 +318,12 @@ func PredictResponse(handler string, script []string, id int, isHTTP bool, rname
 				ex.Payload = errJSON(ex.Code, "", "", m)
 			case "plainerr":
 				ex.Code = "system.internalError"
-				ex.Payload = errJSON(ex.Code, "Internal error: plain "+sid, "", m)
+				ex.Payload = errJSON(ex.Code, AnyMsg, "", m)
 			case "granted":
 				ex.Payload = `{"result":{"get":true,"call":"*"}` + m + `}`
 			case "denied", "accessnone":
 				ex.Code = "system.accessDenied"
-				ex.Payload = errJSON(ex.Code, "Access denied", "", m)
+				ex.Payload = errJSON(ex.Code, StdMsg[ex.Code], "", m)
 			case "access":
 				ex.Payload = `{"result":{"get":true,"call":"set,foo"}` + m + `}`
 			case "new":
@@ -270,19 +332,19 @@ func PredictResponse(handler string, script []string, id int, isHTTP bool, rname
 				ex.Payload = `{"resource":{"rid":"test.res.` + sid + `"}` + m + `}`
 			case "invparams":
 				ex.Code = "system.invalidParams"
-				ex.Payload = errJSON(ex.Code, "Invalid parameters", "", m)
+				ex.Payload = errJSON(ex.Code, StdMsg[ex.Code], "", m)
 			case "invparamsmsg":
 				ex.Code = "system.invalidParams"
 				ex.Payload = errJSON(ex.Code, "bad params "+sid+TrickyFor(id), "", m)
 			case "invquery":
 				ex.Code = "system.invalidQuery"
-				ex.Payload = errJSON(ex.Code, "Invalid query", "", m)
+				ex.Payload = errJSON(ex.Code, StdMsg[ex.Code], "", m)
 			case "invquerymsg":
 				ex.Code = "system.invalidQuery"
 				ex.Payload = errJSON(ex.Code, "bad query "+sid+TrickyFor(id), "", m)
 			case "methodnotfound":
 				ex.Code = "system.methodNotFound"
-				ex.Payload = errJSON(ex.Code, "Method not found", "", m)
+				ex.Payload = errJSON(ex.Code, StdMsg[ex.Code], "", m)
 			case "unmarshalable":
 				// a value that cannot be marshalled must produce
 				// system.internalError
@@ -292,7 +354,7 @@ func PredictResponse(handler string, script []string, id int, isHTTP bool, rname
 	}
 	if !replied {
 		ex.Code = "system.internalError"
-		ex.Payload = errJSON(ex.Code, "Internal error: missing response", "", "")
+		ex.Payload = errJSON(ex.Code, AnyMsg, "", "")
 		ex.Note = "missing-response"
 	}
 	return ex
